@@ -1084,6 +1084,7 @@ class Interp:
                 if c > 1200:
                     r = self.fix_loop(fv, st, depth, cur, L[cur], stop)
                     ret = join(ret, r[0]) if r[0] is not None else ret
+                    frame = st.frames[depth]          # fix_loop installs the joined exit state: the frame object changed
                     if r[1] is None:
                         frame["__dead"] = True
                         return ret
